@@ -11,6 +11,7 @@
 //!   highlighted, to_html}` against a naive re-construction.
 use std::collections::{BTreeMap, BTreeSet};
 use std::ops::Range;
+use std::sync::atomic::{AtomicU64, Ordering};
 
 use serde_json::{json, Value};
 use tantivy::query::{
@@ -31,6 +32,32 @@ use tantivy::tokenizer::{
 use tantivy::{Index, IndexWriter, TantivyDocument, Term};
 use tvmon::report::*;
 use tvmon::rng::Rng;
+
+// ---------------------------------------------------------------------------------------------
+// Defect classes of the unchanged tree have their own signatures (see the final report of this
+// check / known_findings.txt).  They fire on a large share of the cases, so only the first few
+// witnesses per run are recorded as violations (the rest is counted): otherwise they would fill
+// the per-thread violation buffer and hide any other signature.
+
+const SIG_FACET: &str = "token:text-ne-slice:facet-tokenizer-never-sets-offsets";
+const SIG_OVER_SINGLE: &str = "snippet:fragment-exceeds-max_num_chars:single-token-longer-than-limit";
+const SIG_OUTSIDE_OVERLAP: &str =
+    "snippet:highlight-outside-fragment:stop_offset-is-last-token-end-not-max(overlapping-tokens)";
+const SIG_HTML_PANIC_OVERLAP: &str = "snippet:to_html-panics:highlight-outside-fragment(overlapping-tokens)";
+const SIG_EXTRA_LOWER: &str = "snippet:highlight-not-a-query-term:matched-only-by-extra-lowercasing";
+const CLASS_SIGS: [&str; 5] =
+    [SIG_FACET, SIG_OVER_SINGLE, SIG_OUTSIDE_OVERLAP, SIG_HTML_PANIC_OVERLAP, SIG_EXTRA_LOWER];
+static CLASS_REPORTS: [AtomicU64; 5] =
+    [AtomicU64::new(0), AtomicU64::new(0), AtomicU64::new(0), AtomicU64::new(0), AtomicU64::new(0)];
+const CLASS_WITNESSES_PER_RUN: u64 = 6;
+
+fn class_violation(rep: &mut Report, sig: &'static str, witness: impl FnOnce() -> Value) {
+    let i = CLASS_SIGS.iter().position(|s| *s == sig).expect("class signature");
+    rep.count(&format!("class-finding:{sig}"), 1);
+    if CLASS_REPORTS[i].fetch_add(1, Ordering::Relaxed) < CLASS_WITNESSES_PER_RUN {
+        rep.violation(sig, witness());
+    }
+}
 
 // ---------------------------------------------------------------------------------------------
 // text generation
@@ -253,7 +280,7 @@ const LANGS: &[Language] = &[
 
 const REGEXES: &[&str] = &[
     r"\w+", r"[^\s]+", r"\p{L}+", r".", r"(?s).{1,3}", r"'(?:\w*)'", r"\b\w+\b", r"[a-z]+|\d+",
-    r"\A\w+\s?", r"\pL\pM*", r"[\p{Lu}\p{Lt}]\p{Ll}*", r"(?i)[a-zıſ\u{212a}]+", r"\X",
+    r"\A\w+\s?", r"\pL\pM*", r"[\p{Lu}\p{Lt}]\p{Ll}*", r"(?i)[a-zıſ\u{212a}]+", r"\S+\s*",
 ];
 
 #[derive(Clone, Debug)]
@@ -556,6 +583,7 @@ fn check_stream(
     let mut prev_pos: Option<usize> = None;
     let mut max_end = 0usize;
     let mut idx = 0u64;
+    let mut facet_reported = false;
     let wit = |t: &Token, idx: u64| -> Value {
         let mut w = spec.witness();
         w["text"] = json!(clip(text, 200));
@@ -594,17 +622,23 @@ fn check_stream(
         }
         prev_pos = Some(t.position);
         if !normalising && t.text != text[t.offset_from..t.offset_to] {
-            let sig = if is_facet {
+            if is_facet && t.offset_from == 0 && t.offset_to == 0 {
                 // FacetTokenizer never assigns offset_from/offset_to (they stay 0..0) while the
-                // token text is the accumulated facet prefix
-                "token:text-ne-slice:facet-tokenizer-never-sets-offsets"
+                // token text is the accumulated facet prefix; the other clauses stay checked
+                if !facet_reported {
+                    facet_reported = true;
+                    class_violation(rep, SIG_FACET, || {
+                        let mut w = wit(t, idx);
+                        w["slice"] = json!("");
+                        w
+                    });
+                }
             } else {
-                "token:text-ne-slice"
-            };
-            let mut w = wit(t, idx);
-            w["slice"] = json!(clip(&text[t.offset_from..t.offset_to], 80));
-            rep.violation(sig, w);
-            return facts;
+                let mut w = wit(t, idx);
+                w["slice"] = json!(clip(&text[t.offset_from..t.offset_to], 80));
+                rep.violation("token:text-ne-slice", w);
+                return facts;
+            }
         }
         if idx > 0 && t.offset_from < max_end && t.offset_to > t.offset_from {
             facts.overlapping = true;
@@ -633,7 +667,7 @@ fn check_stream(
         }
         idx += 1;
     }
-    facts.ok = true;
+    facts.ok = !facet_reported;
     facts
 }
 
@@ -826,7 +860,10 @@ struct SnipCtx<'a> {
 #[derive(Default)]
 struct SnipFacts {
     highlights: usize,
+    /// false: a violation outside the known defect classes was reported (stop the sweep)
     ok: bool,
+    /// a violation of one of the defect classes was seen on this snippet
+    class_finding: bool,
 }
 
 fn token_facts(an: &mut TextAnalyzer, text: &str) -> StreamFacts {
@@ -888,15 +925,15 @@ fn check_snippet(
         // the documented unit is characters (search_fragments: "at most `max_num_chars`
         // characters (not bytes)")
         let single = hl.len() == 1 && hl[0] == (0..frag.len());
-        let sig = if single {
-            // a matching token that alone is longer than the limit becomes the whole fragment
-            "snippet:fragment-exceeds-max_num_chars:single-token-longer-than-limit"
+        if single {
+            // a matching token that alone is longer than the limit becomes the whole fragment;
+            // keep checking the rest: the other clauses are independent
+            facts.class_finding = true;
+            class_violation(rep, SIG_OVER_SINGLE, || wit(json!({"fragment_chars": nchars})));
         } else {
-            "snippet:fragment-exceeds-max_num_chars"
-        };
-        rep.violation(sig, wit(json!({"fragment_chars": nchars})));
-        rep.count("snippets_over_limit", 1);
-        // keep checking the rest: the other clauses are independent
+            rep.violation("snippet:fragment-exceeds-max_num_chars", wit(json!({"fragment_chars": nchars})));
+            return facts;
+        }
     }
     // highlighted ranges
     let mut inside = true;
@@ -910,23 +947,22 @@ fn check_snippet(
         }
     }
     if !inside {
-        let sig = if tfacts.ends_not_monotone {
-            // FragmentCandidate.stop_offset is the end of the *last* token, not the maximum end;
-            // with overlapping tokens (n-grams) a later, shorter token pulls it back
-            "snippet:highlight-outside-fragment:stop_offset-is-last-token-end-not-max(overlapping-tokens)"
-        } else {
-            "snippet:highlight-outside-fragment"
-        };
-        rep.violation(sig, wit(json!(null)));
         // user-visible consequence: does to_html survive?
         let r = guarded(|| snippet.to_html());
-        if let Err(p) = r {
-            let sig = if tfacts.ends_not_monotone {
-                "snippet:to_html-panics:highlight-outside-fragment(overlapping-tokens)".to_string()
-            } else {
-                format!("snippet:to_html-panics:{}", p.sig())
-            };
-            rep.violation(sig, wit(json!({"panic": p.message, "at": p.location})));
+        if tfacts.ends_not_monotone {
+            // FragmentCandidate.stop_offset is the end of the *last* token, not the maximum end;
+            // with overlapping tokens (n-grams) a later, shorter token pulls it back
+            facts.class_finding = true;
+            class_violation(rep, SIG_OUTSIDE_OVERLAP, || wit(json!(null)));
+            if let Err(p) = r {
+                class_violation(rep, SIG_HTML_PANIC_OVERLAP, || wit(json!({"panic": p.message, "at": p.location})));
+            }
+            facts.ok = true; // nothing else can be checked on this snippet; the sweep goes on
+        } else {
+            rep.violation("snippet:highlight-outside-fragment", wit(json!(null)));
+            if let Err(p) = r {
+                rep.violation(format!("snippet:to_html-panics:{}", p.sig()), wit(json!({"panic": p.message, "at": p.location})));
+            }
         }
         return facts;
     }
@@ -999,6 +1035,7 @@ fn check_snippet(
     // each highlighted range covers text whose analysis yields a query term
     let mut an = cx.analyzer.clone();
     let mut seen: BTreeSet<(usize, usize)> = BTreeSet::new();
+    let mut lower_reported = false;
     for r in &hl {
         if !seen.insert((r.start, r.end)) {
             continue;
@@ -1023,16 +1060,20 @@ fn check_snippet(
         }
         drop(s);
         if !exact {
-            let sig = if lowered {
+            let d = json!({"range": [r.start, r.end], "covered": clip(piece, 80), "analysis": got});
+            if lowered {
                 // FragmentCandidate::try_add_token looks tokens up with an extra
                 // `.to_lowercase()`; with an analyzer that does not lower-case, text that does
                 // not analyse to the query term (and that the query does not match) is highlighted
-                "snippet:highlight-not-a-query-term:matched-only-by-extra-lowercasing"
+                if !lower_reported {
+                    lower_reported = true;
+                    class_violation(rep, SIG_EXTRA_LOWER, || wit(d));
+                }
+                facts.class_finding = true;
             } else {
-                "snippet:highlight-not-a-query-term"
-            };
-            rep.violation(sig, wit(json!({"range": [r.start, r.end], "covered": clip(piece, 80), "analysis": got})));
-            return facts;
+                rep.violation("snippet:highlight-not-a-query-term", wit(d));
+                return facts;
+            }
         }
     }
     // HTML rendering
